@@ -208,7 +208,7 @@ class H:
             if A.shape != np.shape(a) and B.shape != np.shape(b):
                 self.true(label + ':shape', False)
                 return
-        self.observed.append((label, A))
+        self.observed.append((label, A, scale))
         for idx in np.ndindex(A.shape) if A.shape else [()]:
             x, y = A[idx], B[idx]
             lab = label + (str(list(idx)) if idx else '')
@@ -245,7 +245,7 @@ class H:
             if self.mode == 'concolic':
                 ok = A.shape == B.shape and bool(np.all(np.abs(A - B) <= 1e-9 * np.maximum(1.0, np.abs(A))))
             else:
-                ok = A.shape == B.shape and np.array_equal(A, B)
+                ok = A.shape == B.shape and np.array_equal(A, B, equal_nan=True)     # NaN twice is the same result
             if not ok:
                 self._fail(label, f'not bitwise equal: {A!r} vs {B!r}')
             return
